@@ -74,6 +74,7 @@ let () =
   port "read_row" (fun r -> wr_opt wr_strs (read_row (rd_str r)));
   port "read_ol_marker" (fun r -> wr_opt (fun (n, w) -> wr_n n; wr_int (int_of_nat w)) (read_ol_marker (rd_str r)));
   port "escape_backslashes" (fun r -> wr_str (escape_backslashes (rd_str r)));
+  port "escape_backslashes_inner" (fun r -> wr_str (escape_backslashes_inner (rd_str r)));
   port "wrap_words" (fun r ->
     let md = rd_bool r in let w = rd_z r in let c0 = rd_z r in let c1 = rd_z r in
     let ws = rd_strs r in
